@@ -472,8 +472,24 @@ func buildAssignments(files []parsedFile, cfg *Config, preserved *preservationSe
 	minToOrig := make(map[string]string, len(records))
 	origToMin := make(map[string][]string)
 
-	for i, record := range records {
-		newName := fmt.Sprintf("x%d", i+1)
+	// Never hand out a spelling that already occurs as a symbol somewhere in
+	// the inputs: a preserved parameter, a top-level set name, an excluded name
+	// or a free reference called x1 would otherwise capture (or be captured by)
+	// the renamed symbol, and the symbol map could not be inverted.
+	used := make(map[string]bool)
+	for _, file := range files {
+		for _, expr := range file.exprs {
+			collectSymbolSpellings(expr, used)
+		}
+	}
+	next := 0
+	for _, record := range records {
+		next++
+		newName := fmt.Sprintf("x%d", next)
+		for used[newName] {
+			next++
+			newName = fmt.Sprintf("x%d", next)
+		}
 		assignments[record.sym] = newName
 		assignmentKeys[symbolLookupKey(record.sym)] = newName
 
@@ -500,6 +516,25 @@ func buildAssignments(files []parsedFile, cfg *Config, preserved *preservationSe
 		Entries:            entries,
 		MinifiedToOriginal: minToOrig,
 		OriginalToMinified: origToMin,
+	}
+}
+
+// collectSymbolSpellings records the bare name of every symbol in a tree
+// (including quoted data: cheap, and it keeps the map unambiguous).
+func collectSymbolSpellings(node *lisp.LVal, out map[string]bool) {
+	if node == nil {
+		return
+	}
+	if node.Type == lisp.LSymbol {
+		name := node.Str
+		if _, bare, ok := splitQualifiedSymbol(name); ok {
+			name = bare
+		}
+		out[name] = true
+		return
+	}
+	for _, child := range node.Cells {
+		collectSymbolSpellings(child, out)
 	}
 }
 
